@@ -126,10 +126,9 @@ where
 
 // The LRUCache actually stores <K, CacheEntry<V>> instead of <K, V> so that we can
 // remember a last_unlocked timestamp for each entry
-// Invariant:
-// -  The `last_unlocked` timestamps of CacheEntry instances in the map will follow the
-//    same order as the LRU order of the map, with an exception for currently locked
-//    entries that may be temporarily out of order while the entry is locked.
+// Note: The LRU order of the map is the order in which entries were last locked. The `last_unlocked`
+//       timestamps don't necessarily follow that order, since entries can be unlocked in a different
+//       order than they were locked in.
 #[derive(Debug)]
 pub struct CacheEntry<V> {
     value: V,
@@ -1035,10 +1034,10 @@ where
             // no entry can have been unlocked for that long.
             return Vec::new().into_iter();
         };
-        LockableMapImpl::lock_all_unlocked(this, &move |entry| {
-            let entry = entry.value_raw().expect("There must be a value, otherwise it cannot exist in the map as an 'unlocked' entry");
-            entry.last_unlocked <= cutoff
-        }).into_iter()
+        // Note: We have to look at all entries. The LRU order of the map is the order in which entries
+        // were last locked, which can differ from the order in which they were last unlocked.
+        LockableMapImpl::lock_all_unlocked(this, &move |entry| entry.last_unlocked <= cutoff)
+            .into_iter()
     }
 
     #[cfg(test)]
